@@ -19,6 +19,7 @@ package main
 
 import (
 	"bufio"
+	"bytes"
 	"encoding/json"
 	"errors"
 	"flag"
@@ -48,6 +49,22 @@ const budget = 20 * time.Second
 
 var quiet *ulog.Logger
 
+// opts: manager options; drawn by the plan's init line (TLC) or by the seeded generator
+type opts struct {
+	Wt, Rt int // write / read timeout in ms; 0 = library default
+}
+
+func (o opts) mopts() []stcp.MOption {
+	var r []stcp.MOption
+	if o.Wt > 0 {
+		r = append(r, stcp.WithWriteTimeout(time.Duration(o.Wt)*time.Millisecond))
+	}
+	if o.Rt > 0 {
+		r = append(r, stcp.WithReadTimeout(time.Duration(o.Rt)*time.Millisecond))
+	}
+	return r
+}
+
 type act struct {
 	Op   string `json:"op"`
 	S    int    `json:"s"`
@@ -56,6 +73,9 @@ type act struct {
 	K    string `json:"k"`
 	R    string `json:"r"`
 	Hold bool   `json:"hold"`
+	Wt   int    `json:"wt"` // init line only
+	Rt   int    `json:"rt"`
+	Race bool   `json:"-"` // executed concurrently with the complementary start / close that follows
 }
 
 func goid() int {
@@ -327,14 +347,14 @@ func (d deadHandler) OnExit(s *stcp.Session) {
 	atomic.AddInt32(&(&shandler{d.wd}).find(s).exits, 100)
 }
 
-func newWorld(w *tr.W, rng *rand.Rand, n int, own, useDo, empty bool, src string) *world {
+func newWorld(w *tr.W, rng *rand.Rand, o opts, n int, own, useDo, empty bool, src string) *world {
 	wd := &world{x: qx.New(0), w: w, own: own && !useDo, useDo: useDo, empty: empty}
 	wd.x.Budget = budget
 	h := &shandler{wd}
 	if wd.own {
-		wd.mgr = stcp.NewSessionMgr(deadHandler{wd})
+		wd.mgr = stcp.NewSessionMgr(deadHandler{wd}, o.mopts()...)
 	} else {
-		wd.mgr = stcp.NewSessionMgr(h)
+		wd.mgr = stcp.NewSessionMgr(h, o.mopts()...)
 	}
 	wd.mgr.SetLogger(quiet)
 	for i := 1; i <= n; i++ {
@@ -347,7 +367,7 @@ func newWorld(w *tr.W, rng *rand.Rand, n int, own, useDo, empty bool, src string
 		x.conn.closeErr = rng.Intn(3) == 0
 		cerr[i] = x.conn.closeErr
 	}
-	w.Emit(tr.E{"ev": "reset", "maxc": 100000, "free": false, "src": src, "own": wd.own, "do": useDo, "closeerr": cerr})
+	w.Emit(tr.E{"ev": "reset", "maxc": 100000, "free": false, "src": src, "own": wd.own, "do": useDo, "closeerr": cerr, "wt": o.Wt, "rt": o.Rt})
 	return wd
 }
 
@@ -440,6 +460,63 @@ func (wd *world) session(x *ssn) *stcp.Session {
 	return x.sess
 }
 
+// reachable: the session object exists for the caller.  Through SessionMgr.Do that is only after
+// the start; with NewSession the object can be used (Send, Close) before Start.
+func (wd *world) reachable(x *ssn) bool {
+	if x.st == "run" {
+		return true
+	}
+	if x.st != "new" || wd.useDo {
+		return false
+	}
+	wd.ensure(x)
+	return true
+}
+
+func (wd *world) ensure(x *ssn) {
+	if x.sess == nil && !wd.useDo {
+		x.sess = stcp.NewSession(wd.mgr, x.conn)
+		if wd.own {
+			x.sess.UpdateHandler(&shandler{wd})
+		}
+	}
+}
+
+// start starts session x from a goroutine of its own (goroutine attribution).  withClose: Close is
+// called from a second goroutine at the same moment.
+func (wd *world) start(x *ssn, rng *rand.Rand, withClose bool) {
+	wd.ensure(x)
+	again := rng.Intn(4) == 0
+	done := make(chan int)
+	var wg sync.WaitGroup
+	gate := make(chan struct{})
+	if withClose {
+		wg.Add(1)
+		go func() {
+			defer wg.Done()
+			<-gate
+			x.sess.Close()
+		}()
+	}
+	go func() {
+		id := goid()
+		<-gate
+		if wd.useDo {
+			wd.mgr.Do(x.conn)
+		} else {
+			x.sess.Start()
+			if again {
+				x.sess.Start() // startOnce: a second Start changes nothing
+			}
+		}
+		done <- id
+	}()
+	close(gate)
+	x.starter = <-done
+	wg.Wait()
+	x.st = "run"
+}
+
 // step performs one plan action if it is applicable; reports whether something was done.
 func (wd *world) step(a act, rng *rand.Rand) bool {
 	if a.S < 1 || a.S > len(wd.ss) {
@@ -452,29 +529,13 @@ func (wd *world) step(a act, rng *rand.Rand) bool {
 		if x.st != "new" {
 			return false
 		}
-		done := make(chan int)
-		go func() {
-			id := goid()
-			if wd.useDo {
-				wd.mgr.Do(c)
-			} else {
-				s := stcp.NewSession(wd.mgr, c)
-				if wd.own {
-					s.UpdateHandler(&shandler{wd})
-				}
-				x.sess = s
-				s.Start()
-				if rng.Intn(4) == 0 {
-					s.Start() // startOnce: a second Start changes nothing
-				}
-			}
-			done <- id
-		}()
-		x.starter = <-done
-		x.st = "run"
+		wd.start(x, rng, a.Race)
 		wd.fire(tr.E{"op": "start", "s": a.S, "r": "admitted"})
+		if a.Race { // Close runs concurrently with Start (plan order: start, close)
+			wd.fire(tr.E{"op": "close", "s": a.S})
+		}
 	case "send":
-		if x.st != "run" || (len(a.B) == 0 && !wd.empty) {
+		if !wd.reachable(x) || (len(a.B) == 0 && !wd.empty) {
 			return false
 		}
 		bs := make([]byte, len(a.B))
@@ -487,8 +548,14 @@ func (wd *world) step(a act, rng *rand.Rand) bool {
 		}
 		wd.fire(tr.E{"op": "send", "s": a.S, "b": tr.Ints(bs), "r": r})
 	case "close":
-		if x.st != "run" {
+		if !wd.reachable(x) {
 			return false
+		}
+		if a.Race && x.st == "new" { // plan order: close, start - executed concurrently
+			wd.fire(tr.E{"op": "close", "s": a.S})
+			wd.start(x, rng, true)
+			wd.fire(tr.E{"op": "start", "s": a.S, "r": "admitted"})
+			break
 		}
 		wd.session(x).Close()
 		wd.fire(tr.E{"op": "close", "s": a.S})
@@ -606,9 +673,18 @@ func (wd *world) drain(rng *rand.Rand) {
 	}
 }
 
-func runPlan(w *tr.W, rng *rand.Rand, src string, n int, own, useDo, empty bool, plan []act) {
-	wd := newWorld(w, rng, n, own, useDo, empty, src)
-	for _, a := range plan {
+func runPlan(w *tr.W, rng *rand.Rand, o opts, src string, n int, own, useDo, empty bool, plan []act) {
+	wd := newWorld(w, rng, o, n, own, useDo, empty, src)
+	for i := 0; i < len(plan); i++ {
+		a := plan[i]
+		// a held start directly followed by close of the same session (or the other way round) is a
+		// real race: both calls are made at the same moment from two goroutines
+		if i+1 < len(plan) && a.Hold && !useDo && plan[i+1].S == a.S &&
+			((a.Op == "start" && plan[i+1].Op == "close") || (a.Op == "close" && plan[i+1].Op == "start")) &&
+			a.S >= 1 && a.S <= len(wd.ss) && wd.ss[a.S-1].st == "new" {
+			a.Race, a.Hold = true, plan[i+1].Hold
+			i++
+		}
 		if wd.step(a, rng) && (!a.Hold || wd.armed()) {
 			wd.sync()
 		}
@@ -686,6 +762,15 @@ func randPlan(rng *rand.Rand, n, steps int, empty bool) []act {
 			a = act{Op: "start", S: len(out) + 1}
 		}
 		out = append(out, a)
+		if (a.Op == "start" || a.Op == "close") && rng.Intn(5) == 0 {
+			// Close racing Start (either plan order)
+			out[len(out)-1].Hold = true
+			b := act{Op: "close", S: a.S}
+			if a.Op == "close" {
+				b.Op = "start"
+			}
+			out = append(out, b)
+		}
 	}
 	return out
 }
@@ -693,21 +778,75 @@ func randPlan(rng *rand.Rand, n, steps int, empty bool) []act {
 // ---------------------------------------------------------------------------------------------
 // free worlds: real server, loopback sockets
 
+// clientCfg: how a client consumes the stream.  block == 0: every byte is an element of the
+// recorded stream.  block > 0 (bulk transfers): the stream is a sequence of blocks of that size,
+// block k is pattern(k); what is recorded is the sequence of block numbers received complete and
+// intact (-1 for a block that is not the pattern of its number), plus the length of an incomplete
+// tail.  chunk / slow: read at most chunk bytes, then pause - a peer that reads, but slower than
+// the sender writes.
+type clientCfg struct {
+	block int
+	chunk int
+	slow  time.Duration
+}
+
 type client struct {
-	c    net.Conn
-	mu   sync.Mutex
-	got  []byte
-	end  string // "" | eof | reset | self
-	self bool
-	done chan struct{}
+	c     net.Conn
+	cfg   clientCfg
+	mu    sync.Mutex
+	got   []int  // elements received so far
+	part  []byte // incomplete block
+	end   string // "" | eof | reset | self
+	self  bool
+	wrote bool // the client has sent something (it is not a pure reader)
+	done  chan struct{}
+}
+
+func pattern(k, size int) []byte {
+	b := make([]byte, size)
+	for i := range b {
+		b[i] = byte(i*31 + k*7 + i>>9)
+	}
+	b[0], b[1], b[2], b[3] = byte(k>>24), byte(k>>16), byte(k>>8), byte(k)
+	return b
+}
+
+func (cl *client) write(b []byte) {
+	cl.mu.Lock()
+	cl.wrote = true
+	cl.mu.Unlock()
+	cl.c.Write(b)
+}
+
+func (cl *client) take(p []byte) {
+	if cl.cfg.block == 0 {
+		for _, x := range p {
+			cl.got = append(cl.got, int(x))
+		}
+		return
+	}
+	cl.part = append(cl.part, p...)
+	for len(cl.part) >= cl.cfg.block {
+		blk := cl.part[:cl.cfg.block]
+		k := int(blk[0])<<24 | int(blk[1])<<16 | int(blk[2])<<8 | int(blk[3])
+		if k > 1<<20 || !bytes.Equal(blk, pattern(k, cl.cfg.block)) {
+			k = -1
+		}
+		cl.got = append(cl.got, k)
+		cl.part = append([]byte{}, cl.part[cl.cfg.block:]...)
+	}
 }
 
 func (cl *client) run() {
-	buf := make([]byte, 4096)
+	n := 4096
+	if cl.cfg.chunk > 0 {
+		n = cl.cfg.chunk
+	}
+	buf := make([]byte, n)
 	for {
 		n, err := cl.c.Read(buf)
 		cl.mu.Lock()
-		cl.got = append(cl.got, buf[:n]...)
+		cl.take(buf[:n])
 		if err != nil {
 			switch {
 			case cl.self:
@@ -722,6 +861,9 @@ func (cl *client) run() {
 			return
 		}
 		cl.mu.Unlock()
+		if cl.cfg.slow > 0 {
+			time.Sleep(cl.cfg.slow)
+		}
 	}
 }
 
@@ -797,6 +939,7 @@ type fworld struct {
 	addr string
 	ss   []*fsess
 	maxc int
+	ccfg clientCfg // for the clients dialled from now on
 	// a positive signal did not arrive: record what is there and stop
 	failed bool
 }
@@ -833,13 +976,13 @@ func (fw *fworld) wait(ch <-chan struct{}, what string) bool {
 	}
 }
 
-func newFree(w *tr.W, maxc int, rt time.Duration, src string) *fworld {
+func newFree(w *tr.W, maxc int, o opts, src string) *fworld {
 	fw := &fworld{w: w, x: qx.New(0), maxc: maxc}
 	fw.x.Budget = budget
 	fw.x.Ignore = map[string]bool{"IO wait": true}
 	for try := 0; ; try++ {
 		fw.h = &fhandler{reg: map[string]chan *stcp.Session{}, exit: map[string]chan struct{}{}, exits: map[string]int{}}
-		fw.mgr = stcp.NewSessionMgr(fw.h, stcp.WithReadTimeout(rt), stcp.WithWriteTimeout(10*time.Second))
+		fw.mgr = stcp.NewSessionMgr(fw.h, o.mopts()...)
 		fw.h.mgr = fw.mgr
 		fw.addr = freePort()
 		fw.srv = stcp.NewTCPSrv(fw.addr, fw.mgr)
@@ -866,7 +1009,7 @@ func newFree(w *tr.W, maxc int, rt time.Duration, src string) *fworld {
 			tr.Fatal("cannot start a loopback server")
 		}
 	}
-	w.Emit(tr.E{"ev": "reset", "maxc": maxc, "free": true, "src": src, "own": false, "do": true})
+	w.Emit(tr.E{"ev": "reset", "maxc": maxc, "free": true, "src": src, "own": false, "do": true, "wt": o.Wt, "rt": o.Rt})
 	return fw
 }
 
@@ -911,7 +1054,7 @@ func (fw *fworld) dial(k int) {
 			if err != nil {
 				tr.Fatal("dial %s: %v", fw.addr, err)
 			}
-			cl := &client{c: c, done: make(chan struct{})}
+			cl := &client{c: c, cfg: fw.ccfg, got: []int{}, done: make(chan struct{})}
 			r, _ := fw.h.chans(c.LocalAddr().String())
 			go cl.run()
 			t := time.NewTimer(freeBudget)
@@ -1008,12 +1151,14 @@ func (fw *fworld) sync() {
 	obs := make([]tr.E, len(fw.ss))
 	for i, x := range fw.ss {
 		x.cl.mu.Lock()
-		got, end := tr.Ints(x.cl.got), x.cl.end
+		got, end := append([]int{}, x.cl.got...), x.cl.end
+		tail, pure := len(x.cl.part), !x.cl.wrote && !x.cl.self
 		x.cl.mu.Unlock()
 		fw.h.mu.Lock()
 		ex := fw.h.exits[x.cl.c.LocalAddr().String()]
 		fw.h.mu.Unlock()
-		obs[i] = tr.E{"st": x.st, "exits": ex, "got": got, "eof": end == "eof", "gone": end == "eof" || end == "reset"}
+		obs[i] = tr.E{"st": x.st, "exits": ex, "got": got, "eof": end == "eof", "gone": end == "eof" || end == "reset",
+			"pure": pure, "tail": tail}
 	}
 	fw.w.Emit(tr.E{"ev": "sync", "obs": tr.E{"count": int(fw.mgr.ConnCount()), "maxseen": int(atomic.LoadInt32(&fw.h.maxseen)),
 		"g": stcpGoroutines(), "ss": obs}})
@@ -1045,11 +1190,11 @@ func (fw *fworld) end(x *fsess, how string) {
 		fw.awaitEnd(x, true)
 	case "panic":
 		fw.fire(tr.E{"op": "panic", "s": x.id})
-		x.cl.c.Write([]byte{'P'})
+		x.cl.write([]byte{'P'})
 		fw.awaitEnd(x, true)
 	case "herr":
 		fw.fire(tr.E{"op": "rfault", "s": x.id, "k": "herr"})
-		x.cl.c.Write([]byte{'E'})
+		x.cl.write([]byte{'E'})
 		fw.awaitEnd(x, true)
 	case "timeout": // the fire event was logged when the session was admitted
 		fw.awaitEnd(x, true)
@@ -1094,11 +1239,52 @@ func (fw *fworld) finish(rng *rand.Rand) {
 	}
 }
 
+// runBulk: flush before a local Close over a real TCP connection taken through Server -> Do, with
+// the manager options of a plan.  Megabytes are accepted by Send in blocks and Close follows at
+// once, so that the close happens while the kernel still holds what the (slower) reader has not
+// taken yet; the client reads to the end of the stream, however it ends, and reports which blocks
+// arrived intact and in which order.
+func runBulk(w *tr.W, rng *rand.Rand, o opts) bool {
+	const blk = 128 << 10
+	fw := newFree(w, 1+rng.Intn(3), o, "free-bulk")
+	fw.ccfg = clientCfg{block: blk, chunk: 64 << 10, slow: time.Millisecond}
+	fw.dial(1)
+	fw.sync()
+	if fw.failed || len(fw.ss) != 1 || fw.ss[0].st != "run" {
+		fw.finish(rng)
+		return !fw.failed
+	}
+	x := fw.ss[0]
+	nb := 48 + rng.Intn(17) // 6 .. 8 MB
+	for k := 1; k <= nb; {
+		n := 1 + rng.Intn(3)
+		if k+n-1 > nb {
+			n = nb - k + 1
+		}
+		var bs []byte
+		ids := make([]int, 0, n)
+		for i := 0; i < n; i++ {
+			bs = append(bs, pattern(k+i, blk)...)
+			ids = append(ids, k+i)
+		}
+		r := "ok"
+		if err := x.sess.Send(bs); err != nil {
+			r = "err"
+		}
+		fw.fire(tr.E{"op": "send", "s": x.id, "b": ids, "r": r})
+		k += n
+	}
+	fw.end(x, "close")
+	fw.sync()
+	fw.finish(rng)
+	return !fw.failed
+}
+
 func runFree(w *tr.W, rng *rand.Rand, idx int) bool {
 	maxc := 1 + rng.Intn(3)
 	if idx%5 == 4 {
 		// read-deadline world: silent clients, the sessions end by themselves
-		fw := newFree(w, maxc, 30*time.Millisecond, "free-timeout")
+		fw := newFree(w, maxc, opts{Wt: 10000, Rt: 30}, "free-timeout")
 		n := 1 + rng.Intn(maxc+1)
 		for i := 0; i < n; i++ {
 			// one at a time: an earlier session may time out (and free its slot) before a later dial
@@ -1123,7 +1309,7 @@ func runFree(w *tr.W, rng *rand.Rand, idx int) bool {
 		// surplus bursts: fill the server, then many connections at once; every surplus one must be
 		// closed, and when one slot is free exactly one of a burst gets it
 		maxc = 1 + rng.Intn(2)
-		fw := newFree(w, maxc, 20*time.Second, "free-burst")
+		fw := newFree(w, maxc, opts{Wt: 10000, Rt: 20000}, "free-burst")
 		fw.dial(maxc)
 		fw.sync()
 		if !fw.failed {
@@ -1144,7 +1330,7 @@ func runFree(w *tr.W, rng *rand.Rand, idx int) bool {
 		fw.finish(rng)
 		return !fw.failed
 	}
-	fw := newFree(w, maxc, 20*time.Second, "free")
+	fw := newFree(w, maxc, opts{Wt: 10000, Rt: 20000}, "free")
 	steps := 6 + rng.Intn(14)
 	for i := 0; i < steps && len(fw.ss) < 6 && !fw.failed; i++ {
 		al := fw.alive()
@@ -1164,7 +1350,7 @@ func runFree(w *tr.W, rng *rand.Rand, idx int) bool {
 		case x < 72:
 			s := al[rng.Intn(len(al))]
 			fw.fire(tr.E{"op": "rok", "s": s.id})
-			s.cl.c.Write([]byte{'x'})
+			s.cl.write([]byte{'x'})
 		default:
 			how := []string{"close", "close", "close", "peer", "panic", "herr"}[rng.Intn(6)]
 			fw.end(al[rng.Intn(len(al))], how)
@@ -1185,12 +1371,15 @@ func main() {
 	nrand := flag.Int("rand", 100, "random scripted plans")
 	nfree := flag.Int("nfree", 20, "free worlds")
 	empty := flag.Bool("empty", true, "include zero-length sends")
+	nbulk := flag.Int("nbulk", 4, "bulk-transfer worlds over real TCP")
 	flag.Parse()
 	rng := rand.New(rand.NewSource(*seed))
 	quiet = ulog.NewSimpleLogger("error")
 	quiet.SetLevel(zapcore.FatalLevel + 1)
 
 	w := tr.Create(*out)
+	var optList []opts // option combinations drawn by the plans, in order of first appearance
+	seenOpt := map[opts]bool{}
 	if *plans != "" {
 		files, _ := filepath.Glob(filepath.Join(*plans, "*.ndjson"))
 		sort.Slice(files, func(i, j int) bool {
@@ -1204,22 +1393,42 @@ func main() {
 			if len(p) == 0 || p[0].Op != "init" {
 				tr.Fatal("plan %s does not start with init", f)
 			}
-			runPlan(w, rng, "plan:"+filepath.Base(f), 4, i%3 == 1, i%3 == 2, *empty, p[1:])
+			o := opts{p[0].Wt, p[0].Rt}
+			if !seenOpt[o] {
+				seenOpt[o] = true
+				optList = append(optList, o)
+			}
+			runPlan(w, rng, o, "plan:"+filepath.Base(f), 4, i%3 == 1, i%3 == 2, *empty, p[1:])
 		}
 	}
 	for i := 0; i < *nrand; i++ {
 		n := 1 + rng.Intn(3)
-		runPlan(w, rng, "rand", n, i%3 == 1, i%3 == 2, *empty, randPlan(rng, n, 25+rng.Intn(50), *empty))
+		o := opts{[]int{0, 200, 500, 900, 1000, 3000}[rng.Intn(6)], []int{0, 20000, 45000}[rng.Intn(3)]}
+		runPlan(w, rng, o, "rand", n, i%3 == 1, i%3 == 2, *empty, randPlan(rng, n, 25+rng.Intn(50), *empty))
 	}
 	w.Close()
 	if w.N() > 0 && !attributed {
 		tr.Fatal("no goroutine could be attributed to any session (stack dump format changed?)")
 	}
 	fw := tr.Create(*free)
-	for i := 0; i < *nfree; i++ {
-		if !runFree(fw, rng, i) {
-			break // one unexplained world is enough; the next ones would wait as long
+	ok := true
+	for i := 0; i < *nfree && ok; i++ {
+		ok = runFree(fw, rng, i) // one unexplained world is enough; the next ones would wait as long
+	}
+	// bulk worlds: one per write timeout drawn by the plans (then round robin), with that plan's options
+	var bulk []opts
+	seenWt := map[int]bool{}
+	for _, o := range optList {
+		if !seenWt[o.Wt] {
+			seenWt[o.Wt] = true
+			bulk = append(bulk, o)
 		}
+	}
+	if len(bulk) == 0 {
+		bulk = []opts{{Wt: 400, Rt: 20000}, {Wt: 0, Rt: 0}, {Wt: 1000, Rt: 30000}, {Wt: 2500, Rt: 20000}}
+	}
+	for i := 0; i < *nbulk && ok; i++ {
+		ok = runBulk(fw, rng, bulk[i%len(bulk)])
 	}
 	fw.Close()
 	fmt.Printf("scripted_events=%d free_events=%d\n", w.N(), fw.N())
